@@ -74,7 +74,11 @@ pub struct LightClientProtocol { pub storage: Storage, pub peers: Peers, pub hea
 impl LightClientProtocol {
     pub fn get_peer_state(&self, _p: &PeerIndex) -> Result<PeerState, Status> { Ok(self.peers.st.borrow().clone()) }
     /// PoW + chain-root check of the incoming header: an arbitrary Boolean that must have been true (uninterpreted)
-    pub fn check_verifiable_header(&self, _vh: &VerifiableHeader) -> Result<(), Status> { if self.header_ok { unsafe { G.header_checked_ok = true; } Ok(()) } else { Err(Status::from(StatusCode::InvalidNonce)) } }
+    pub fn check_verifiable_header(&self, vh: &VerifiableHeader) -> Result<(), Status> {
+        // contract of the real function (decided on its own text: C10 O10.guard-*): Ok implies the total difficulty does not overflow
+        if vh.root.td.0.checked_add(vh.header.diff).is_none() { return Err(Status::from(StatusCode::MalformedProtocolMessage)); }
+        if self.header_ok { unsafe { G.header_checked_ok = true; } Ok(()) } else { Err(Status::from(StatusCode::InvalidNonce)) }
+    }
     pub fn peers(&self) -> &Peers { &self.peers }
     pub fn last_n_blocks(&self) -> u64 { self.last_n }
     pub fn get_last_state_proof(&self, _nc: &dyn CKBProtocolContext, _p: PeerIndex) -> Result<bool, Status> { Ok(true) }
@@ -94,12 +98,15 @@ mod harness {
         let id: u8 = kani::any(); kani::assume(id < 8);
         HeaderView { id, number: kani::any(), parent: kani::any(), epoch: EpochNumberWithFraction(kani::any()), timestamp: kani::any(), diff: kani::any(), ..Default::default() }
     }
+    /// a header that passed check_verifiable_header earlier (proven / stored): its total difficulty is representable
     fn any_vh() -> VerifiableHeader {
-        let v = VerifiableHeader { header: any_hv(), uncles: 0, ext: None, root: HeaderDigest { td: U256(kani::any()), end_number: kani::any(), id: 0 } };
-        kani::assume(v.root.td.0.checked_add(v.header.diff).is_some());   // the U256 overflow panic is decided under C10
+        let v = any_wire_vh();
+        kani::assume(v.root.td.0.checked_add(v.header.diff).is_some());
         v
     }
-    fn td(v: &VerifiableHeader) -> u64 { v.root.td.0 + v.header.diff }
+    /// a header as it arrives from the wire: no assumption at all
+    fn any_wire_vh() -> VerifiableHeader { VerifiableHeader { header: any_hv(), uncles: 0, ext: None, root: HeaderDigest { td: U256(kani::any()), end_number: kani::any(), id: 0 } } }
+    fn td(v: &VerifiableHeader) -> u64 { v.root.td.0.wrapping_add(v.header.diff) }
     fn ready_state(p: VerifiableHeader, window: Vec<HeaderView>) -> PeerState {
         let ls = LastState::new(p);
         let ps = ProveState::new_from_request(ProveRequest::new(ls.clone(), Default::default()), Vec::new(), window);
@@ -121,7 +128,7 @@ mod harness {
         let stored_td: u64 = kani::any();
         let mut proto = LightClientProtocol { storage: Storage { td: stored_td, tip: any_hv(), last_n: Vec::new() },
             peers: Peers { st: std::cell::RefCell::new(st), lock: MatchedLock }, header_ok: kani::any(), last_n };
-        let c = any_vh();
+        let c = any_wire_vh();
         unsafe { NOW = kani::any(); }
         let pvh = packed::PVH(c);
         let nc = Nc;
